@@ -74,6 +74,7 @@ structure SeqCase where
   groups : List (Bool × List Msg)   -- (close afterwards, frames); group 0 on connect
   wbudget : Option Nat
   dec : Decoder := decValue        -- the reply type of the call objects of this case
+  unser : List Nat := []           -- call objects whose request does not serialize
 
 def setCont (t : Track) (i : Nat) (b : Bool) : Track :=
   if b then (if t.cont.contains i then t else { t with cont := i :: t.cont })
@@ -116,6 +117,8 @@ def expectOp (c : SeqCase) (t : Track) (op : Op) : Option Res × Track :=
     let t := match op with | .more _ => setCont t i true | _ => t
     if t.attempted.contains i then (some (.err .methodCalledAlready), t) else
     let t := { t with attempted := i :: t.attempted }
+    -- an operation that fails before writing leaves the connection as free (or as busy) as it was
+    if c.unser.contains i then (some (.err .badJson), t) else
     match t.owner with
     | .owned _ => (some (.err .connectionBusy), t)
     | .lost => (some (.err .connectionBusy), t)
@@ -163,6 +166,7 @@ def walk (c : SeqCase) : Track → List Op → List Res → Nat → Verdict × T
         else
           let why :=
             match want, r with
+            | .err .badJson, .err .connectionBusy => "unserializable-request-reported-as-busy"
             | .err .connectionBusy, _ => "call-on-a-busy-connection-did-not-fail-with-busy"
             | _, .err .connectionBusy => "busy-although-the-connection-was-free"
             | .err .methodCalledAlready, _ => "call-object-sent-twice"
@@ -188,7 +192,11 @@ def P_C07_seq (c : SeqCase) (o : SeqObs) : Verdict :=
     else if blockedWanted != o.blocked then some "blocking-differs"
     else if o.blocked then none
     else match t.owner, o.slots with
-      | .idle, some (r, w) => if r && w then none else some "connection-not-reusable-after-the-final-reply"
+      | .idle, some (r, w) =>
+        if r && w then none
+        else if c.ops.any (fun op => isSendOp op && c.unser.contains op.obj) then
+          some "connection-lost-its-stream-although-no-call-is-outstanding (a send failed before writing: request did not serialize)"
+        else some "connection-not-reusable-after-the-final-reply"
       | .owned _, some (r, w) => if !r && !w then none else some "stream-in-the-connection-while-a-call-owns-it"
       | _, _ => none
 
